@@ -134,7 +134,7 @@ func runCases(w *out.W, cases []*loopCase) {
 
 func runLoop(w *out.W, tier string) {
 	w.Rule = "a case is non-trivial when SQLite accepted the schema (>= 1 table created); distinct by (creation path, feature-tag set)"
-	n := 450
+	n := 300
 	if tier == "thorough" {
 		n = 12000
 	}
